@@ -621,7 +621,8 @@ class _Unmarshaller:
     def load_unicode(self):
         n = self.r_long()
         s = self._read(n)
-        ret = s.decode("utf8")
+        # marshal writes text with "surrogatepass" (see dump_unicode); read it back the same way
+        ret = s.decode("utf8", "surrogatepass")
         return ret
 
     dispatch[TYPE_UNICODE] = load_unicode
@@ -948,7 +949,8 @@ class _FastUnmarshaller:
     def load_unicode(self):
         n = _r_long(self)
         s = _read(self, n)
-        ret = s.decode("utf8")
+        # marshal writes text with "surrogatepass" (see dump_unicode); read it back the same way
+        ret = s.decode("utf8", "surrogatepass")
         return ret
 
     dispatch[TYPE_UNICODE] = load_unicode
